@@ -90,11 +90,13 @@ impl SimAutoAlloc {
     }
 
     /// The real `AddQueue` message; the PBS/Slurm handler created by `create_queue` is then
-    /// replaced by `handler`.
+    /// replaced by `handler`. `queue_id`: `Some` for a queue restored from the journal
+    /// (MIRROR: the restore block of `bootstrap::start_server`).
     pub async fn add_queue(
         &mut self,
         server_directory: PathBuf,
         params: QueueParameters,
+        queue_id: Option<QueueId>,
         worker_resources: Option<ResourceDescriptor>,
         handler: Box<dyn QueueHandler>,
     ) -> (anyhow::Result<QueueId>, bool) {
@@ -103,7 +105,7 @@ impl SimAutoAlloc {
             .message(AutoAllocMessage::AddQueue {
                 server_directory,
                 params,
-                queue_id: None,
+                queue_id,
                 worker_resources,
                 response: token,
             })
